@@ -492,3 +492,7 @@ pub struct Measurement {
     /// The uncertainty of the timestamps.
     pub uncertainty: Duration,
 }
+
+#[cfg(feature = "pendulum_project_ntpd_rs_verif")]
+#[path = "/verif/hooks/statime-algo/lib.rs"]
+pub mod verif;
